@@ -684,6 +684,8 @@ HasMethod(c, v, m) ==
 KnownNoMethod(c, v, m) ==       \* kinds whose modules are tabulated here or that have no such methods at all
     \/ (v.t \in {"ref", "tup", "itr"} /\ ~HasMethod(c, v, m))
     \/ v.t \in {"null", "bool"}            \* no `.` access at all on Null and Bool
+    \/ (v.t = "rng" /\ m \in (ListModule \cup MapModule \cup TupleModule) \ IterModule
+         /\ m \notin {"contains", "end", "expanded", "intersection", "is_inclusive", "start", "union"})   \* docs/core_lib/range.md
     \/ (v.t \in {"int", "flt"} /\ m \in ListModule \cup MapModule \cup TupleModule \cup IterModule
          /\ m \notin {"min", "max"})          \* the number module has its own min and max
 
